@@ -85,6 +85,8 @@ type TypeInfo struct {
 	Elems           []int // per elements-struct field: element field index of the same name or -1
 	CmdField        int   // field of model.CmdType carrying this function
 	FeatureTypes    []model.FeatureTypeType
+
+	keyPool [][]int64 // generator state: the identifiers drawn so far in the history being generated
 }
 
 const Domain = 10
